@@ -132,6 +132,7 @@ type flowGen struct {
 
 var flowConsts = []string{"0", "1", "2", "3", "4", "5", "7", "8", "100", "200"}
 var flowRel = []string{"<", "<=", "==", ">=", ">", "<>"}
+var flowInverseRel = map[string]string{"<": ">=", "<=": ">", "==": "<>", ">=": "<", ">": "<=", "<>": "=="}
 
 func (g *flowGen) pick(xs ...string) string { return xs[g.rd.Intn(len(xs))] }
 
@@ -178,6 +179,9 @@ func (g *flowGen) atomU32() string {
 	}
 	return "c"
 }
+
+// loopAtom: a place a loop body can change
+func (g *flowGen) loopAtom() string { return g.pick("x", "c", "y", "x", "this.f0", "this.f1") }
 
 func (g *flowGen) atomU64() string {
 	return g.pick("args.data.length()", "s.length()", "args.src.length()", "args.src.length()")
@@ -455,17 +459,44 @@ func (g *flowGen) block(depth, budget int) {
 				}
 			}
 		case r < 8 && depth < 4:
-			// a loop: the situation is reset to the invariants
-			head := "while " + g.cond()
-			if g.rd.Chance(1, 2) {
-				head += ", inv " + g.cond()
+			// a loop: the situation is reset to the invariants; jumps must re-prove them
+			la, lop, lk := g.loopAtom(), g.pick("<", "<=", "<>", ">", ">="), g.anyConst()
+			head := "while " + la + " " + lop + " " + lk
+			if g.rd.Chance(1, 4) {
+				head = "while " + g.cond()
+				lop = ""
+			}
+			inv := ""
+			if g.rd.Chance(2, 3) {
+				inv = g.pick(la+" "+g.pick("<=", "<", ">=", "<>")+" "+g.anyConst(), g.cond())
+				head += ", inv " + inv
+			}
+			if lop != "" && g.rd.Chance(1, 3) {
+				head += ", post " + la + " " + flowInverseRel[lop] + " " + lk
 			}
 			if g.try("while", head+" {") {
+				for j := g.rd.Range(0, 2); j > 0; j-- {
+					// a jump right after a state change: accepted only if the loop's conditions
+					// are re-proved there
+					_, inval := g.invalidator()
+					if g.rd.Chance(1, 2) && lop != "" {
+						inval = la + " " + g.pick("+=", "-=", "=") + " " + g.pick("1", "2", lk)
+					}
+					jump := g.pick("continue", "continue", "break")
+					switch g.rd.Intn(3) {
+					case 0:
+						g.try(jump+"-after-change", "if "+g.cond()+" {", inval, jump, "}")
+					case 1:
+						g.try(jump+"-in-if", "if "+g.cond()+" {", jump, "}")
+					default:
+						g.try("change-in-loop", inval)
+					}
+				}
 				g.block(depth+1, budget)
 				if g.rd.Chance(1, 3) {
 					g.try("continue-in-if", "if "+g.cond()+" {", "continue", "}")
 				}
-				if g.rd.Chance(1, 2) {
+				if g.rd.Chance(1, 3) {
 					g.try("break", "break")
 				}
 				// the body must be closable (invariant provable at the implicit continue)
